@@ -28,7 +28,7 @@ import (
 
 func TestMain(m *testing.M) {
 	document.SetGlobalLevel(document.LogLevelSilent)
-	kit.TestMain(m, 700, 10000)
+	kit.TestMain(m, 560, 10000)
 }
 
 // Case: a document built by a history of API calls, then Cycles save/open cycles.
@@ -39,6 +39,14 @@ type Case struct {
 	// Foreign, when set, replaces the API-built document by a package of the independent foreign-package generator:
 	// only the stability clause is judged on it (foreign_src.go); Ops is empty then.
 	Foreign *foreign.Package `json:"foreign,omitempty"`
+	// SaveAPI: every save of the cycle chain goes through Document.Save(path) (the file is read back) instead of ToBytes.
+	SaveAPI bool `json:"saveapi,omitempty"`
+	// Other: a second document built by its own ops ALTERNATELY with the first one (op i of Other runs before op i+1
+	// of Ops); it is saved and reopened between the saves and opens of the first document and must round-trip too.
+	Other []ops.Op `json:"other,omitempty"`
+	// ForeignEdit (foreign source only): after the first Open a paragraph and this picture are added through the API;
+	// the stability clause then speaks about a foreign document that was edited.
+	ForeignEdit *gen.Img `json:"foreignedit,omitempty"`
 }
 
 // ---------------------------------------------------------------------------------------------
@@ -52,13 +60,13 @@ var weights = map[string]int{
 	"align": 3, "spacing": 3, "indent": 3, "keepnext": 2, "keeplines": 2, "pbb": 2, "widow": 2, "outline": 2, "snap": 2, "pstyle": 2,
 	"hrule": 2, "pborder": 2, "pformat": 4,
 	// multi-valued formatting whose parts are drawn independently (ops/c03_sides.go)
-	"pborder4": 4, "cellpborder4": 2, "cellborders6": 3, "tblborders6": 3, "runfonts": 3, "ptabs": 4, "tcmar": 2, "tblcellmar": 2,
+	"pborder4": 4, "cellpborder4": 2, "cellborders6": 3, "tblborders6": 3, "runfonts": 3, "ptabs": 6, "tcmar": 2, "tblcellmar": 2,
 	// run level
 	"addtext": 6, "ppagebreak": 2, "pbold": 2, "pitalic": 1, "punderline": 2, "pstrike": 1, "phighlight": 2, "pfont": 2, "psize": 2, "pcolor": 2,
 	// tables
 	"table": 18, "celltext": 5, "cellftext": 2, "celladdtext": 2, "cellpara": 2, "cellfpara": 2, "celllist": 2, "cellfmt": 2, "cellfmtdir": 1, "cellimg": 1,
-	"nested": 2, "nestedh": 6, "insrow": 2, "approw": 1, "delrow": 2, "inscol": 2, "appcol": 1, "delcol": 2,
-	"mergeh": 6, "mergev": 4, "merger": 4, "unmerge": 2, "rowheight": 2, "rowheightrange": 2, "rowheader": 2, "headerrows": 2, "rowkeep": 2,
+	"nested": 2, "nestedh": 8, "insrow": 2, "approw": 1, "delrow": 2, "inscol": 2, "appcol": 1, "delcol": 2,
+	"mergeh": 9, "mergev": 5, "merger": 5, "unmerge": 2, "rowheight": 2, "rowheightrange": 2, "rowheader": 2, "headerrows": 2, "rowkeep": 2,
 	"tblstyle": 2, "tblborders": 2, "tblshading": 2, "cellshading": 2, "altrows": 1, "celldir": 2, "cellpad": 1, "cellborders": 2, "tblalign": 2,
 	"rmtblborders": 1, "rmcellborders": 1, "clearcell": 1, "clearcellfmt": 1, "clearcellparas": 1,
 	// pictures
@@ -70,7 +78,7 @@ var weights = map[string]int{
 	"rmpara": 1, "rmparaat": 1, "rmelemat": 1,
 }
 
-var styleIDs = []string{"Normal", "Heading1", "Heading2", "Heading3", "Title", "Quote", "ListParagraph", "NoSuchStyle", "My Style", "样式"}
+var styleIDs = []string{"Normal", "Heading1", "Heading2", "Heading3", "Title", "Quote", "ListParagraph", "NoSuchStyle", "My Style", "样式", "heading1", "Heading11", "Heading 1", "normal"}
 
 var cfg = &ops.Config{Classes: gen.Expressible, Weights: map[string]int{"para": 1}, StyleIDs: styleIDs}
 
@@ -99,15 +107,26 @@ var scenarios = [][]string{
 	{"table", "tblborders6", "cellborders6", "tcmar", "tblcellmar", "cellpborder4"},
 }
 
+// wideScenarios: heads for the entry points added by widen.go (drawn independently of the scenarios above)
+var wideScenarios = [][]string{
+	{"image", "imagefloat", "imgpos", "imgwrap", "imgresize", "table", "cellimgcfg", "cellimgfile"},
+	{"table", "rowprops", "rowprops", "tbllayout", "customtblstyle", "copytable", "celltext", "delrows"},
+	{"createtable", "mergev", "delcols", "tblread", "cleartable", "celltext"},
+	{"pagesettings", "para", "multilist", "restartnum", "listitem", "docread", "pagesettings"},
+}
+
 func drawOp(t *rapid.T, k string) ops.Op {
 	var o ops.Op
-	if ops.IsSides(k) {
+	if isWide(k) {
+		o = drawWide(t, k)
+	} else if ops.IsSides(k) {
 		o = cfg.SidesOp(t, k)
 	} else if ops.IsExtra(k) {
 		o = cfg.ExtraOp(t, k)
 	} else {
 		o = cfg.OpOf(t, k)
 	}
+	widenText(t, &o)
 	sanitize(&o)
 	return o
 }
@@ -138,7 +157,10 @@ func sanitize(o *ops.Op) {
 // shapes, so that most table ops address existing rows/columns (the interpreter still resolves selectors by itself;
 // a wrong guess only yields an API error, which is a legal outcome).
 type dim struct{ r, c int }
-type tracker struct{ tabs []dim }
+type tracker struct {
+	tabs   []dim
+	merged [][3]int // table, row, column of the start cell of the merges drawn so far
+}
 
 func rng(t *rapid.T, lo, hi int, label string) int {
 	if hi < lo {
@@ -149,9 +171,18 @@ func rng(t *rapid.T, lo, hi int, label string) int {
 
 func (tr *tracker) aim(t *rapid.T, o *ops.Op) {
 	switch o.K {
-	case "table":
+	case "table", "createtable":
 		if rapid.IntRange(0, 9).Draw(t, "shape") > 0 {
 			o.I[0], o.I[1] = rapid.IntRange(1, 6).Draw(t, "rows"), rapid.IntRange(1, 6).Draw(t, "cols")
+			// shapes past one digit (the 10th/11th column or row) now and then, past 16/32/64 columns rarely
+			switch rapid.SampledFrom(shapeSlots).Draw(t, "wideshape") {
+			case 1:
+				o.I[1] = rapid.IntRange(9, 12).Draw(t, "cols2")
+			case 2:
+				o.I[0] = rapid.IntRange(9, 12).Draw(t, "rows2")
+			case 3:
+				o.I[0], o.I[1] = rapid.IntRange(1, 3).Draw(t, "rows3"), rapid.SampledFrom([]int{16, 17, 32, 33, 64, 65}).Draw(t, "cols3")
+			}
 			if o.I[2] < 0 {
 				o.I[2] = 6000
 			}
@@ -184,8 +215,13 @@ func (tr *tracker) aim(t *rapid.T, o *ops.Op) {
 	}
 	switch o.K {
 	case "celltext", "cellpara", "cellftext", "celladdtext", "cellfpara", "celllist", "cellfmt", "cellfmtdir", "cellimg", "cellshading", "celldir", "cellpad",
-		"cellborders", "rmcellborders", "clearcell", "clearcellfmt", "clearcellparas", "unmerge", "cellpborder4", "cellborders6", "tcmar":
+		"cellborders", "rmcellborders", "clearcell", "clearcellfmt", "clearcellparas", "unmerge", "cellpborder4", "cellborders6", "tcmar", "cellimgcfg", "cellimgfile", "structprops":
 		o.I[0], o.I[1], o.I[2] = ti, row(), col()
+		if o.K == "unmerge" && len(tr.merged) > 0 && rapid.Bool().Draw(t, "atmerged") {
+			// aim at a cell that an earlier op merged (start cell of the merge)
+			m := tr.merged[rapid.IntRange(0, len(tr.merged)-1).Draw(t, "mi")]
+			o.I[0], o.I[1], o.I[2] = m[0], m[1], m[2]
+		}
 	case "nested", "nestedh":
 		o.I[0], o.I[1], o.I[2] = ti, row(), col()
 		if rapid.IntRange(0, 5).Draw(t, "nshape") > 0 {
@@ -196,15 +232,45 @@ func (tr *tracker) aim(t *rapid.T, o *ops.Op) {
 		}
 	case "mergeh":
 		a, b := span(d.c, "mh")
+		if d.c >= 10 && rapid.Bool().Draw(t, "mhwide") { // a span of two digits
+			a = rng(t, 0, d.c-10, "mhwa")
+			b = rng(t, a+9, d.c-1, "mhwb")
+		}
 		o.I[0], o.I[1], o.I[2], o.I[3] = ti, row(), a, b
+		tr.merged = append(tr.merged, [3]int{ti, o.I[1], a})
 	case "mergev":
 		a, b := span(d.r, "mv")
 		o.I[0], o.I[1], o.I[2], o.I[3] = ti, a, b, col()
+		tr.merged = append(tr.merged, [3]int{ti, a, o.I[3]})
 	case "merger":
 		a, b := span(d.r, "mrr")
 		c1, c2 := span(d.c, "mrc")
+		if d.c >= 10 && rapid.Bool().Draw(t, "mrwide") {
+			c1 = rng(t, 0, d.c-10, "mrwa")
+			c2 = rng(t, c1+9, d.c-1, "mrwb")
+		}
 		o.I[0], o.I[1], o.I[2], o.I[3], o.I[4] = ti, a, b, c1, c2
-	case "rowheight", "rowheader", "rowkeep", "delrow":
+		tr.merged = append(tr.merged, [3]int{ti, a, c1})
+	case "tblread":
+		o.I[0], o.I[1], o.I[2], o.I[3], o.I[4] = ti, row(), col(), row(), col()
+	case "delrows":
+		a, b := span(d.r, "drs")
+		o.I[0], o.I[1], o.I[2] = ti, a, b
+		if d.r-(b-a+1) >= 1 {
+			tr.tabs[ti].r -= b - a + 1
+		}
+	case "delcols":
+		a, b := span(d.c, "dcs")
+		o.I[0], o.I[1], o.I[2] = ti, a, b
+		if d.c-(b-a+1) >= 1 {
+			tr.tabs[ti].c -= b - a + 1
+		}
+	case "copytable":
+		o.I[0] = ti
+		tr.tabs = append(tr.tabs, d)
+	case "rowprops":
+		o.I[0], o.I[1] = ti, row()
+	case "rowheight", "rowheader", "rowkeep", "delrow", "rowkeepnext":
 		o.I[0], o.I[1] = ti, row()
 		if o.K == "delrow" && d.r > 1 {
 			tr.tabs[ti].r--
@@ -229,7 +295,7 @@ func (tr *tracker) aim(t *rapid.T, o *ops.Op) {
 	case "appcol":
 		o.I[0] = ti
 		tr.tabs[ti].c++
-	case "tblstyle", "tblborders", "tblshading", "altrows", "tblalign", "rmtblborders", "tblborders6", "tblcellmar":
+	case "tblstyle", "tblborders", "tblshading", "altrows", "tblalign", "rmtblborders", "tblborders6", "tblcellmar", "tblpagebreak", "tbllayout", "cleartable", "customtblstyle":
 		o.I[0] = ti
 	}
 }
@@ -249,6 +315,26 @@ var sourceSlots = func() []int {
 	return out
 }()
 
+// shapeSlots: 0 = the ordinary shape (up to 6 x 6); 1 = 9-12 columns; 2 = 9-12 rows; 3 = 16/17/32/33/64/65 columns
+var shapeSlots = func() []int {
+	out := make([]int, 100)
+	for i := range out {
+		switch {
+		case i%16 == 5:
+			out[i] = 1 // 6 slots
+		case i%25 == 7:
+			out[i] = 2 // 4 slots
+		case i == 50:
+			out[i] = 3
+		}
+	}
+	return out
+}()
+
+// otherKinds: what the second, alternately built document is made of
+var otherKinds = []string{"para", "para", "fpara", "image", "imagefloat", "table", "celltext", "cellimg", "listitem", "heading", "margins", "header",
+	"addtext", "pagebreak", "mergeh", "orient", "footerpn"}
+
 func genCase(t *rapid.T) Case {
 	switch src := rapid.SampledFrom(sourceSlots).Draw(t, "source"); {
 	case src == 1:
@@ -262,9 +348,26 @@ func genCase(t *rapid.T) Case {
 		o := drawOp(t, k)
 		tr.aim(t, &o)
 		c.Ops = append(c.Ops, o)
+		// a table of ten or more columns gets, half of the time, a merge over ten or more of them right away
+		if n := len(tr.tabs); (k == "table" || k == "createtable") && n > 0 && tr.tabs[n-1].c >= 10 && o.I[1] == tr.tabs[n-1].c && rapid.Bool().Draw(t, "widemerge") {
+			d := tr.tabs[n-1]
+			a := rng(t, 0, d.c-10, "wma")
+			b := rng(t, a+9, d.c-1, "wmb")
+			r1 := rng(t, 0, d.r-1, "wmr")
+			if rapid.Bool().Draw(t, "wmrange") {
+				c.Ops = append(c.Ops, ops.Op{K: "merger", I: []int{n - 1, r1, rng(t, r1, d.r-1, "wmr2"), a, b}})
+			} else {
+				c.Ops = append(c.Ops, ops.Op{K: "mergeh", I: []int{n - 1, r1, a, b}})
+			}
+		}
 	}
 	if rapid.IntRange(0, 1).Draw(t, "head") == 0 {
 		for _, k := range rapid.SampledFrom(scenarios).Draw(t, "scenario") {
+			add(k)
+		}
+	}
+	if rapid.IntRange(0, 4).Draw(t, "widehead") == 0 {
+		for _, k := range rapid.SampledFrom(wideScenarios).Draw(t, "widescenario") {
 			add(k)
 		}
 	}
@@ -289,10 +392,62 @@ func genCase(t *rapid.T) Case {
 			}
 		}
 	}
+	// a document that was saved, opened again and edited further is an API-built document too: now and then the history
+	// contains a reopen (the ops after it act on the opened document) ...
+	switch rapid.SampledFrom(historySlots).Draw(t, "history") {
+	case 1:
+		at := len(c.Ops) // half of the time at the end: only additions follow
+		if rapid.Bool().Draw(t, "reopenmid") {
+			at = rapid.IntRange(len(c.Ops)/2, len(c.Ops)).Draw(t, "reopenat")
+		}
+		re := ops.Op{K: "reopen", B: []bool{rapid.Bool().Draw(t, "reopenfile")}}
+		c.Ops = append(c.Ops[:at], append([]ops.Op{re}, c.Ops[at:]...)...)
+		for i := rapid.IntRange(0, 3).Draw(t, "nafter"); i > 0; i-- {
+			add(rapid.SampledFrom([]string{"image", "imagefloat", "cellimg", "para", "listitem", "table", "addtext", "celltext", "margins", "header"}).Draw(t, "afterkind"))
+		}
+	case 2:
+		// ... and rarely that happens to a document with more pictures / list items than one digit counts (the 11th
+		// media part, relationship and numbering instance), to which further ones are added after the reopen
+		n := rapid.IntRange(9, 13).Draw(t, "npics")
+		for i := 0; i < n; i++ {
+			add(rapid.SampledFrom([]string{"image", "image", "imagefloat", "cellimg"}).Draw(t, "manykind"))
+			if rapid.IntRange(0, 2).Draw(t, "withitem") == 0 {
+				add("listitem")
+			}
+		}
+		c.Ops = append(c.Ops, ops.Op{K: "reopen", B: []bool{rapid.Bool().Draw(t, "reopenfile")}})
+		for i := rapid.IntRange(2, 5).Draw(t, "nafter"); i > 0; i-- {
+			add(rapid.SampledFrom([]string{"image", "image", "imagefloat", "cellimg", "listitem"}).Draw(t, "afterkind"))
+		}
+	}
+	// two documents built alternately
+	if rapid.IntRange(0, 11).Draw(t, "other") == 0 {
+		otr := &tracker{}
+		for i := rapid.IntRange(2, 8).Draw(t, "nother"); i > 0; i-- {
+			o := drawOp(t, rapid.SampledFrom(otherKinds).Draw(t, "otherkind"))
+			otr.aim(t, &o)
+			c.Other = append(c.Other, o)
+		}
+	}
 	c.Cycles = rapid.SampledFrom([]int{1, 2, 2, 3, 3, 4}).Draw(t, "cycles")
 	c.File = rapid.IntRange(0, 3).Draw(t, "file") == 0
+	c.SaveAPI = rapid.IntRange(0, 3).Draw(t, "saveapi") == 0
 	return c
 }
+
+// historySlots: 0 = plain history; 1 = one reopen somewhere in its second half; 2 = many pictures, reopen, more pictures
+var historySlots = func() []int {
+	out := make([]int, 100)
+	for i := range out {
+		switch {
+		case i%12 == 7:
+			out[i] = 1 // 8 slots
+		case i == 30 || i == 60 || i == 90:
+			out[i] = 2
+		}
+	}
+	return out
+}()
 
 // inPlaceKinds change existing body elements without adding or removing a top-level one
 // (page-setting kinds do so only when a section element already exists).
@@ -622,7 +777,19 @@ func run(c Case) *kit.Result {
 	defer rmScratch(dir)
 	x := ops.NewExec(dir)
 	bs := &bigState{}
+	ws := &wideState{}
 	supplied := map[string]bool{} // pictures handed to the API by successful calls
+	// pictures of the document when it was last reopened in the middle of the history (as saved just before that Open),
+	// the payloads added by picture calls since then, and whether every op since then only adds (appendOnlyKinds)
+	var atReopen, addedSince []string
+	onlyAdds := true
+	// the second document, built alternately with the first (Case.Other)
+	var xo *ops.Exec
+	if len(c.Other) > 0 {
+		xo = ops.NewExec(filepath.Join(dir, "other"))
+		os.MkdirAll(xo.Dir, 0o755)
+		res.Label("two-documents-alternately")
+	}
 
 	// 1. build
 	var shape []string
@@ -633,10 +800,25 @@ func run(c Case) *kit.Result {
 			res.Label("str:" + cl)
 		}
 		var err error
+		if xo != nil && i >= 1 && i-1 < len(c.Other) {
+			if po, _ := kit.Try(func() { doOther(xo, c.Other[i-1]) }); po != nil {
+				res.Count("discarded:build-panic", 1)
+				res.Label("discard:build-panic")
+				res.Shape = "discard"
+				return res
+			}
+		}
 		target := hasTarget(x, op.K)
 		p, _ := kit.Try(func() {
-			if isBig(op.K) {
+			if op.K == "reopen" {
+				var pics []string
+				if pics, err = doReopen(x, op); err == nil {
+					atReopen, addedSince, onlyAdds = pics, nil, true
+				}
+			} else if isBig(op.K) {
 				err = doBig(x, op, bs)
+			} else if isWide(op.K) {
+				err = doWide(x, op, ws)
 			} else if ops.IsSides(op.K) {
 				err = x.DoSides(op)
 			} else if ops.IsExtra(op.K) {
@@ -659,7 +841,18 @@ func run(c Case) *kit.Result {
 		} else if target {
 			okKinds[op.K] = true
 			if isImageOp(op.K) && op.Img != nil {
-				supplied[blipKey(op.Img.Bytes())] = true
+				k := blipKey(op.Img.Bytes())
+				supplied[k] = true
+				addedSince = append(addedSince, k)
+				ws.imgOps++
+				if ws.reopened > 0 {
+					ws.afterRe = true
+				}
+			}
+			if op.K == "reopen" {
+				ws.reopened++
+			} else if !appendOnlyKinds[op.K] {
+				onlyAdds = false
 			}
 			if ops.IsSides(op.K) {
 				// parts that differ from each other: the only inputs on which a confusion of the parts can show
@@ -674,7 +867,7 @@ func run(c Case) *kit.Result {
 		} else {
 			e = "noop"
 		}
-		if op.K == "save" {
+		if op.K == "save" || op.K == "savefile" {
 			x.Saves = nil // intermediate packages are not judged here (C01 does); the final save must reflect the final body
 			if err == nil {
 				nSaves++
@@ -690,6 +883,26 @@ func run(c Case) *kit.Result {
 		res.Count("discarded:no-body", 1)
 		return res
 	}
+	if xo != nil { // the rest of the second document's ops, when it has more of them than the first one
+		for j := len(c.Ops) - 1; j >= 0 && j < len(c.Other); j++ {
+			if po, _ := kit.Try(func() { doOther(xo, c.Other[j]) }); po != nil {
+				xo = nil
+				break
+			}
+		}
+	}
+	if ws.reopened > 0 {
+		res.Label("reopen-in-history")
+		if ws.afterRe {
+			res.Label("picture-added-after-reopen")
+		}
+	}
+	if ws.imgOps >= 11 {
+		res.Label("pictures>=11")
+		if ws.afterRe {
+			res.Label("pictures>=11+added-after-reopen")
+		}
+	}
 	if nSaves > 0 {
 		res.Label("intermediate-save")
 		if editsSinceSave > 0 {
@@ -704,7 +917,7 @@ func run(c Case) *kit.Result {
 	// 2. first save
 	var b1 []byte
 	var err error
-	if p, st := kit.Try(func() { b1, err = D.ToBytes() }); p != nil || err != nil {
+	if p, st := kit.Try(func() { b1, err = saveDoc(D, c, dir, "first") }); p != nil || err != nil {
 		// serialisation failure/panic is C01/C05 territory: nothing was produced to reopen
 		res.Count("discarded:save-failed", 1)
 		res.Label("discard:save-failed")
@@ -716,6 +929,15 @@ func run(c Case) *kit.Result {
 		res.Count("discarded:unreadable-output", 1) // C01 judges this
 		res.Label("discard:unreadable-output")
 		return res
+	}
+	// the second document is saved right after the first one
+	var so1 *saved
+	if xo != nil && xo.Doc != nil {
+		var bo []byte
+		var oe error
+		if p, _ := kit.Try(func() { bo, oe = saveDoc(xo.Doc, c, xo.Dir, "first") }); p == nil && oe == nil {
+			so1, _ = observe(bo)
+		}
 	}
 
 	// features of the built document (from the written main part, independent of the library's reader)
@@ -751,6 +973,21 @@ func run(c Case) *kit.Result {
 			}
 		case n.Is(canon.W, "gridSpan"):
 			feat["merge-h"] = true
+			if len(n.A(canon.W, "val")) >= 2 {
+				feat["gridspan>=10"] = true
+			}
+		case n.Is(canon.W, "tblGrid"):
+			if len(n.Kids) >= 10 {
+				feat["cols>=10"] = true
+			}
+		case n.Is(canon.W, "numId"):
+			if len(n.A(canon.W, "val")) >= 2 {
+				feat["numid>=10"] = true
+			}
+		case n.Is(canon.W, "instrText") && n.Parent.Parent.Is(canon.W, "p") && n.Parent.Parent.Parent.Is(canon.W, "body"):
+			feat["field-run-in-body"] = true
+		case n.Is(canon.W, "noWrap") || n.Is(canon.W, "hideMark") || n.Is(canon.W, "tblInd"):
+			feat["struct-only-table-property"] = true
 		case n.Is(canon.W, "vMerge"):
 			feat["merge-v"] = true
 		case n.Is(canon.W, "br") && n.Parent.Is(canon.W, "r"):
@@ -835,6 +1072,29 @@ func run(c Case) *kit.Result {
 	sort.Strings(shape)
 	res.Shape = fmt.Sprintf("%v|c%d", dedup(shape), c.Cycles)
 
+	// RT6: the text as a consumer of the saved package reads it. Leading and trailing white space of a w:t is significant
+	// only under xml:space="preserve"; the library's own reader does not care, so only the written bytes can show it.
+	// Elements whose text was handed to one of the entry points that build a run without Text.Space (cell texts, row and
+	// column data, list items, the TOC title and entries: finding KF-C03-text-without-preserve) are judged on their own.
+	res.Eval("C03.RT6")
+	res.Eval("C03.RT6/builder-without-preserve")
+	var badPlain, badBuilder []string
+	unp := unpreservingTexts(c)
+	for _, e := range unpreservedEdgeText(s1.main) {
+		if unp[e.text] || (e.inSdt && unp["\x00toc"]) {
+			badBuilder = append(badBuilder, e.where)
+		} else {
+			badPlain = append(badPlain, e.where)
+		}
+	}
+	const rt6 = "first save: %d w:t element(s) whose text begins or ends with white space lack xml:space=\"preserve\" (a consumer of the package drops that white space), first: %s"
+	if len(badPlain) > 0 {
+		res.Fail("C03.RT6", rt6, len(badPlain), badPlain[0])
+	}
+	if len(badBuilder) > 0 {
+		res.Fail("C03.RT6/builder-without-preserve", rt6, len(badBuilder), badBuilder[0])
+	}
+
 	// 3. first reopen
 	var D2 *document.Document
 	if p, st := kit.Try(func() { D2, err = reopen(b1, c.File, dir, 1) }); p != nil {
@@ -846,6 +1106,17 @@ func run(c Case) *kit.Result {
 	if err != nil || D2 == nil || D2.Body == nil {
 		res.Fail("C03.RT2", "the saved document cannot be opened: %v", err)
 		return res
+	}
+
+	// the second document is opened right after the first one
+	var O2 *document.Document
+	if so1 != nil {
+		var oe error
+		res.Eval("C03.RT2")
+		if p, st := kit.Try(func() { O2, oe = reopen(so1.raw, c.File, xo.Dir, 1) }); p != nil || oe != nil || O2 == nil || O2.Body == nil {
+			res.Fail("C03.RT2", "second document (built alternately with the first): its saved package cannot be opened: %v %v [%s]", oe, p, st)
+			O2 = nil
+		}
 	}
 
 	// RT2: in-memory body
@@ -876,7 +1147,23 @@ func run(c Case) *kit.Result {
 
 	// 4. second save, RT1 / RT4
 	var bN []byte
-	if p, st := kit.Try(func() { bN, err = D2.ToBytes() }); p != nil || err != nil {
+	if O2 != nil { // the second document is saved again just before the first one
+		var bo []byte
+		var oe error
+		if p, st := kit.Try(func() { bo, oe = saveDoc(O2, c, xo.Dir, "second") }); p != nil || oe != nil {
+			res.Fail("C03.RT1", "second document (built alternately with the first): saving the reopened document failed: %v %v [%s]", oe, p, st)
+		} else if so2, e := observe(bo); e != nil {
+			res.Fail("C03.RT1", "second document (built alternately with the first): the re-saved package is unreadable: %v", e)
+		} else {
+			if d := canon.Diff(so1.main, so2.main, rt1Options); d != "" {
+				res.Fail("C03.RT1", "second document (built alternately with the first): main part of its first save vs main part saved after Open: %s", d)
+			}
+			if d := seqDiff(blips(so1, true), blips(so2, true)); d != "" {
+				res.Fail("C03.RT4", "second document (built alternately with the first): pictures first save vs after Open+save: %s", d)
+			}
+		}
+	}
+	if p, st := kit.Try(func() { bN, err = saveDoc(D2, c, dir, "second") }); p != nil || err != nil {
 		res.Eval("C03.RT1")
 		res.Fail("C03.RT1", "saving the reopened document failed: %v %v [%s]", err, p, st)
 		return res
@@ -910,6 +1197,40 @@ func run(c Case) *kit.Result {
 			break
 		}
 	}
+	// ... and a document that was saved, opened and then only added to still shows the pictures it had when it was opened,
+	// each as often as then, plus every picture added since exactly once (as a multiset: cell pictures are not last in
+	// document order). Histories with any other kind of op after the reopen (removals, merges, copies, ...) are left out.
+	if ws.reopened > 0 && onlyAdds {
+		res.Label("reopen-then-only-additions")
+		want := map[string]int{}
+		for _, k := range atReopen {
+			want[k]++
+		}
+		for _, k := range addedSince {
+			want[k]++
+		}
+		got := map[string]int{}
+		for _, k := range blips(s1, false) {
+			got[k]++
+		}
+		var keys []string
+		for k := range want {
+			keys = append(keys, k)
+		}
+		for k := range got {
+			if _, ok := want[k]; !ok {
+				keys = append(keys, k)
+			}
+		}
+		sort.Strings(keys)
+		for _, k := range keys {
+			if got[k] != want[k] {
+				res.Fail("C03.RT4", "document saved, opened (%d picture(s) then) and extended by %d picture call(s): the payload %s shows %d time(s) in its next save, expected %d (its count when the document was opened plus the calls that added it since): a picture of the document resolves to another picture's bytes or was lost",
+					len(atReopen), len(addedSince), k, got[k], want[k])
+				break
+			}
+		}
+	}
 
 	// 5. further cycles: RT3, never masked
 	prevDoc, prevSaved := D2, s2
@@ -924,7 +1245,7 @@ func run(c Case) *kit.Result {
 			res.Fail("C03.RT3", "cycle %d: in-memory body differs from the previous cycle's: %s: %s", cyc, ds[0].Path, ds[0].Detail)
 		}
 		var bb []byte
-		if p, st := kit.Try(func() { bb, err = Dn.ToBytes() }); p != nil || err != nil {
+		if p, st := kit.Try(func() { bb, err = saveDoc(Dn, c, dir, fmt.Sprintf("cycle%d", cyc)) }); p != nil || err != nil {
 			res.Fail("C03.RT3", "cycle %d: saving failed: %v %v [%s]", cyc, err, p, st)
 			return res
 		}
@@ -942,6 +1263,26 @@ func run(c Case) *kit.Result {
 		prevDoc, prevSaved = Dn, sn
 	}
 
+	// RT7: the built document itself is not changed by what happened to its copies: saved once more now, after the
+	// copies were opened and saved, it yields the main part and the pictures of its first save (judged in the cases with
+	// one or two cycles, which keeps the cost of a case even; not for the size classes)
+	if len(bs.labels) == 0 && c.Cycles <= 2 {
+		res.Eval("C03.RT7")
+		var bb []byte
+		if p, st := kit.Try(func() { bb, err = saveDoc(D, c, dir, "first") }); p != nil || err != nil {
+			res.Fail("C03.RT7", "saving the built document a second time (after its copies were opened and saved) failed: %v %v [%s]", err, p, st)
+		} else if sa, e := observe(bb); e != nil {
+			res.Fail("C03.RT7", "the built document saved a second time is unreadable: %v", e)
+		} else {
+			if d := canon.Diff(s1.main, sa.main, nil); d != "" {
+				res.Fail("C03.RT7", "the built document saved a second time, after its copies were opened and saved, differs from its first save (no call on it in between): %s", d)
+			}
+			if d := seqDiff(blips(s1, false), blips(sa, false)); d != "" {
+				res.Fail("C03.RT7", "pictures of the built document saved a second time differ from those of its first save: %s", d)
+			}
+		}
+	}
+
 	// 6. RT5 page settings (last: GetPageSettings creates a section element when there is none)
 	res.Eval("C03.RT5")
 	var ps1, ps2 *document.PageSettings
@@ -951,6 +1292,136 @@ func run(c Case) *kit.Result {
 		}
 	}
 	return res
+}
+
+// appendOnlyKinds: ops that add body elements, cell pictures, runs or formatting, or only read - none of them removes,
+// moves or repeats a picture by its documented meaning
+var appendOnlyKinds = map[string]bool{"image": true, "imagefile": true, "imagefloat": true, "cellimg": true, "cellimgcfg": true, "cellimgfile": true,
+	"para": true, "fpara": true, "heading": true, "headingbm": true, "headingbm2": true, "pagebreak": true, "listitem": true, "bullet": true, "numbered": true, "multilist": true,
+	"addtext": true, "ppagebreak": true, "table": true, "createtable": true, "align": true, "spacing": true, "indent": true, "pstyle": true, "pbold": true, "pitalic": true,
+	"pcolor": true, "psize": true, "pfont": true, "margins": true, "orient": true, "pagesize": true, "custompage": true, "pagesettings": true, "gutter": true, "hfdist": true,
+	"docgrid": true, "header": true, "footer": true, "headerpn": true, "footerpn": true, "fheader": true, "ffooter": true, "save": true, "savefile": true, "docread": true,
+	"tblread": true, "imgalt": true, "imgtitle": true, "imgpos": true, "imgwrap": true, "restartnum": true}
+
+// doReopen executes the op "reopen" (as internal/ops does: save, Open, the opened document becomes the current one and
+// the handles are taken from it) and reports the pictures of the package that was opened, in document order.
+func doReopen(x *ops.Exec, o ops.Op) ([]string, error) {
+	x.NOps++
+	d := x.Doc
+	b, err := d.ToBytes()
+	if err != nil {
+		x.Errs++
+		return nil, err
+	}
+	var nd *document.Document
+	if len(o.B) > 0 && o.B[0] {
+		p := filepath.Join(x.Dir, "reopen.docx")
+		if werr := os.WriteFile(p, b, 0o644); werr != nil {
+			return nil, nil // scratch problem, not an API result
+		}
+		nd, err = document.Open(p)
+	} else {
+		nd, err = document.OpenFromMemory(io.NopCloser(bytes.NewReader(b)))
+	}
+	if err != nil || nd == nil || nd.Body == nil {
+		x.Errs++
+		return nil, fmt.Errorf("reopen of own output failed: %v", err)
+	}
+	var pics []string
+	if s, e := observe(b); e == nil {
+		pics = blips(s, false)
+	}
+	x.Side = append(x.Side, d)
+	if len(x.Side) > 4 {
+		x.Side = x.Side[len(x.Side)-4:]
+	}
+	x.Doc = nd
+	x.Paras, x.Tables, x.Images = nd.Body.GetParagraphs(), nd.Body.GetTables(), nil
+	x.Replaced++
+	return pics, nil
+}
+
+// saveDoc is one save of the cycle chain: Document.ToBytes, or (Case.SaveAPI) Document.Save to a file that is read back.
+func saveDoc(d *document.Document, c Case, dir, name string) ([]byte, error) {
+	if !c.SaveAPI {
+		return d.ToBytes()
+	}
+	p := filepath.Join(dir, "saved", name+".docx")
+	if err := d.Save(p); err != nil {
+		return nil, err
+	}
+	return os.ReadFile(p) // the file stays: a later save of the same document to the same name overwrites it
+}
+
+// doOther executes one op of the second document (errors are legal outcomes and are not judged).
+func doOther(x *ops.Exec, o ops.Op) {
+	switch {
+	case isWide(o.K):
+		doWide(x, o, &wideState{})
+	case ops.IsSides(o.K):
+		x.DoSides(o)
+	case ops.IsExtra(o.K):
+		x.DoExtra(o)
+	default:
+		x.Do(o)
+	}
+}
+
+// unpreservedEdgeText lists the w:t elements whose text begins or ends with XML white space and that are not under
+// xml:space="preserve" (the attribute is inherited from the nearest ancestor that carries it).
+type edgeT struct {
+	where, text string
+	inSdt       bool // inside a block-level content control (the table of contents the library generates)
+}
+
+func unpreservedEdgeText(root *canon.Node) []edgeT {
+	var out []edgeT
+	var rec func(n *canon.Node, preserve bool)
+	rec = func(n *canon.Node, preserve bool) {
+		switch n.A(canon.XML, "space") {
+		case "preserve":
+			preserve = true
+		case "default":
+			preserve = false
+		}
+		if n.Is(canon.W, "t") && !preserve && n.Text != strings.Trim(n.Text, " \t\r\n") {
+			in := false
+			for a := n.Parent; a != nil; a = a.Parent {
+				if a.Is(canon.W, "sdt") {
+					in = true
+				}
+			}
+			where := ""
+			if len(out) < 8 { // the path is for the report only (and costs a walk over the siblings)
+				where = fmt.Sprintf("%s: %q", nodePath(n), clipS(n.Text))
+			}
+			out = append(out, edgeT{where, n.Text, in})
+		}
+		for _, k := range n.Kids {
+			rec(k, preserve)
+		}
+	}
+	rec(root, false)
+	return out
+}
+
+func nodePath(n *canon.Node) string {
+	var parts []string
+	for ; n != nil; n = n.Parent {
+		idx := 0
+		if n.Parent != nil {
+			for _, k := range n.Parent.Kids {
+				if k == n {
+					break
+				}
+				if k.Space == n.Space && k.Local == n.Local {
+					idx++
+				}
+			}
+		}
+		parts = append([]string{fmt.Sprintf("%s[%d]", n.Name(), idx)}, parts...)
+	}
+	return "/" + strings.Join(parts, "/")
 }
 
 func more(g []memDiff) string {
@@ -1028,16 +1499,21 @@ func pageDiff(a, b *document.PageSettings) string {
 func TestC03(t *testing.T) {
 	kit.Main(t, kit.Spec[Case]{
 		ID: "C03", Level: "exploration",
-		CaseLimit: 120 * time.Second, // documents with 30 MiB pictures or 10 M characters on a busy machine
+		CaseLimit: 360 * time.Second, // documents with 30 MiB pictures or 10 M characters on a machine that runs a dozen other checks at the same time
 		Rule: "(a, ~88 % of the cases) document built by 8-30 (thorough 8-50) generated API calls (paragraph/run/table/picture/section setters with their argument ranges, XML-expressible text) " +
 			"including multi-valued formatting whose parts are drawn independently of each other (paragraph/cell/table borders per side incl. diagonals and insideH/insideV with own presence, style, size, colour, spacing; cell and table margins per side; run fonts per script; tab stop lists; indentation, spacing and page margins per component), " +
 			"optionally preceded by a scenario prefix, with 0-3 intermediate saves of the live document at arbitrary positions and (1 case in 3) a tail of one more save followed by 1-5 edits of existing elements, then 1-4 save/open cycles through memory or a file; non-trivial = (>=3 kinds of body children or a merged/nested table) " +
 			"and >=2 distinct successful formatting setters and >=2 cycles; distinct = distinct set of (op kind, outcome) plus cycle count. " +
+			"Widened: the histories also call ResizeImage / SetImagePosition / SetImageWrapText, AddCellImage (explicit and detected format) / AddCellImageFromFile, SetTablePageBreak, SetRowKeepWithNext, TableRowProperties.SetCantSplit / SetTblHeader, " +
+			"SetTableLayout, DeleteRows / DeleteColumns, ClearTable, CopyTable + Body.AddElement, CreateTable + Body.AddElement, CreateCustomTableStyle, every read accessor and iterator of Table and Document, CreateMultiLevelList, RestartNumbering, SetPageSettings with every field drawn on its own (defaults included), " +
+			"Document.Save of the live document, field runs (CreateHyperlinkField / CreatePageRefField) in body paragraphs, tblInd / noWrap / hideMark through the struct fields; one text in five is of an edge class (tab, newline, CR, NBSP, U+2028, U+FEFF ... rather than spaces at the ends; astral or combining characters first / last / just before a round length; blanks only; markup look-alikes); " +
+			"6 % of the tables have 9-12 columns or rows and 1 % 16-65 columns, with merges spanning 10 or more columns; 8 % of the histories hold a reopen (save, Open, the opened document is edited further) and 3 % put 9-13 pictures and some list items before it and 2-5 after it; in about 10 % a second document is built alternately with the first and saved / opened between its saves and opens; " +
+			"a quarter of the cycle chains save through Document.Save(path) to one file name instead of ToBytes. " +
 			"(b, ~2 % quick / ~4 % thorough, plus three hand-written cases in every run) size classes: a short history of the same kind holding one or two parts of unusual size - a picture of 4 KiB .. 18 MiB (thorough: 36 MiB) " +
 			"at, one below, one above or a little above a power of two or round decimal size, in a PNG/JPEG/GIF container the decoders accept, through AddImageFromData / AddImageFromFile / AddCellImageFromData; a paragraph, run or cell text of 255 .. 4 Mi (thorough 10 M) characters " +
 			"(ASCII, multi-byte, or tabs/newlines/markup characters); 256 .. 5000 (thorough 65536) paragraphs, runs of one paragraph or table rows; tables of 63 .. 256 columns; 10 .. 256 pictures; non-trivial = >=2 cycles. " +
 			"(c, ~10 %) a package drawn by the independent foreign-package generator (every producer-side variation it has, formulas in 1 of 3), opened and taken through 3-5 save/open cycles: only the stability clause is judged " +
-			"(saves 2, 3, ... must have the same main part, unmasked, the same pictures, and their reopened bodies must be equal); non-trivial = >=2 body-level features; distinct = distinct feature set plus cycle count",
+			"(saves 2, 3, ... must have the same main part, unmasked, the same pictures, and their reopened bodies must be equal); a quarter of the packages get media numbered past one digit (image9 | image10, 99 | 100, more than 10/16/32/64 parts) and a third are edited through the API after the first Open (a paragraph and a picture, which must show exactly once); non-trivial = >=2 body-level features; distinct = distinct feature set plus cycle count",
 		Gen: genCase, Run: run, Findings: findings,
 		Assumptions: []string{
 			"text arguments are restricted to what XML 1.0 can carry (other characters are replaced by the encoder, which is outside 'what the library can express')",
@@ -1045,6 +1521,9 @@ func TestC03(t *testing.T) {
 			"a history in which an API call panics, or whose first save fails, is discarded (judged by C09/C01/C05)",
 			"pictures of unusual size are a small valid PNG/JPEG/GIF whose container carries filler bytes in the way the format provides for (private ancillary chunk, comment segments, comment extension); image/png, image/jpeg and image/gif decode them",
 			"a foreign package that the library refuses to open, or whose first save fails, is discarded (C04/C09 judge that); what the first cycle changes of a foreign document is not judged here (C04)",
+			"a w:t whose text begins or ends with white space must carry xml:space=\"preserve\" in the saved main part (clause RT6): without it the white space is not significant for a consumer of the package (the rule the harness's C11 and C19 readers apply too); the library's own reader never trims, so this shows in the written bytes only",
+			"a reopen in the middle of a history makes the opened document the built one: what that Open lost of the earlier ops is not judged in that case (it is in all the others)",
+			"TableStyle.Name (display name of a custom table style, tag xml:\"-\", carried to the styles part on save) is not part of the body and is not compared",
 			"run fonts per script, tab stop lists and cell/table margins per side have no setter: they are built through the exported struct fields (RunProperties.FontFamily, ParagraphProperties.Tabs, TableCellProperties.TcMar, TableProperties.TableCellMar), as the library's own builders and examples do",
 		},
 		MustSee: map[string]float64{"feat:nested-table": 0.08, "feat:run-break": 0.1, "feat:floating-picture": 0.1, "cycles>=3": 0.3, "feat:merge-h": 0.08, "feat:merge-v": 0.05,
@@ -1052,7 +1531,12 @@ func TestC03(t *testing.T) {
 			"intermediate-save": 0.4, "save-then-inplace-edit": 0.15, "op:snap": 0.03, "op:pstyle": 0.03, "op:pborder": 0.03, "op:pformat": 0.05, "feat:edge-whitespace-text": 0.2, "feat:non-ascii-text": 0.2,
 			"parts-differ": 0.3, "parts-differ:pborder4": 0.08, "parts-differ:cellborders6": 0.04, "parts-differ:tblborders6": 0.04, "parts-differ:ptabs": 0.05, "parts-differ:runfonts": 0.04,
 			"parts-differ:tcmar": 0.02, "parts-differ:tblcellmar": 0.03, "parts-differ:cellpborder4": 0.02,
-			"source:foreign": 0.06, "pkg:" + foreign.FTable: 0.01, "pkg:" + foreign.FPicture: 0.004, "big:any": 0.005, "big:picture>=8MiB+1": 0.001, "big:picture>=16MiB": 0.001,
+			"two-documents-alternately": 0.04, "reopen-in-history": 0.03, "picture-added-after-reopen": 0.015, "reopen-then-only-additions": 0.015, "feat:cols>=10": 0.02, "feat:gridspan>=10": 0.004,
+		"feat:numid>=10": 0.01, "feat:field-run-in-body": 0.01, "feat:struct-only-table-property": 0.01, "str:edge:lead-nonspace-blank": 0.08, "str:edge:trail-nonspace-blank": 0.08,
+		"str:edge:blank-only": 0.05, "str:edge:lead-astral": 0.05, "str:edge:trail-astral": 0.05, "str:edge:multibyte-at-round-length": 0.04, "op:rowprops": 0.03, "op:copytable": 0.03,
+		"op:createtable": 0.04, "op:pagesettings": 0.04, "op:savefile": 0.03, "op:cellimgcfg": 0.03, "op:delrows": 0.02, "op:delcols": 0.015, "op:multilist": 0.03, "op:imgpos": 0.02,
+		"op:imgwrap": 0.02, "op:imgresize": 0.02, "op:tblread": 0.02, "op:customtblstyle": 0.03, "foreign:edited-after-open": 0.015,
+		"source:foreign": 0.06, "pkg:" + foreign.FTable: 0.01, "pkg:" + foreign.FPicture: 0.004, "big:any": 0.005, "big:picture>=8MiB+1": 0.001, "big:picture>=16MiB": 0.001,
 			"big:text>=1Mi": 0.001, "big:paragraphs>=4096": 0.001, "big:rows>=1000": 0.001, "big:cols>=64": 0.001, "big:pictures>=100": 0.001, "big:runs>=1000": 0.001},
 		Fixed: fixedCases,
 	})
